@@ -24,8 +24,8 @@ Rules:
 - Work only inside the given worktree directories under /tmp. Never touch /repo or /verif (do not even read /verif). The sandbox is offline.
 - The change must be a plausible bug a developer could introduce (a refactor slip, a wrong index, a stale cache key, a missing copy, a wrong sign/offset under a particular condition, a forgotten case) - NOT sabotage that ordinary use would expose at once, and not a syntax/crash bug. Prefer changes that need something specific to manifest: a particular parity/size, a multi-step sequence of operations, an unusual but valid input, a particular chunking or ensemble shape, lazy vs eager only, or two cooperating sites that each look fine alone. Keep it small (1-15 changed lines), in the library code under abtem/ only (not tests).
 - It must break the property as STATED (read the statement carefully), for inputs a user may legitimately use.
-- The existing tests must still pass with your change: run the relevant test files from the worktree, e.g. `cd <worktree> && PYTHONPATH=<worktree> /venv/bin/python -m pytest -q -p no:cacheprovider -x test/test_<area>.py` (tests that already fail without your change do not count; compare against the unchanged tree with `git stash`). The machine is heavily loaded, so tests are slow; choose the most relevant 2-4 test files rather than the whole suite (the full suite will be re-run later by someone else; a change that fails it will be discarded).
-- Write the demonstration as `<worktree>/demo_<ID>.py`: a self-contained script that exits 0 and prints PASS when the property holds and exits 1 and prints FAIL (with numbers) when it is violated. It must FAIL with your change and PASS on the unchanged code (verify both: `git stash` / `git stash pop`, or `git diff > change.patch; git checkout -- abtem; ...; git apply change.patch`). Set `abtem.config.set({{"diagnostics.progress_bar": False, "fftw.planning_effort": "FFTW_ESTIMATE"}})` at the top to keep it fast and quiet.
+- The existing tests must still pass with your change: run the relevant test files from the worktree, e.g. `cd <worktree> && PYTHONPATH=<worktree> /venv/bin/python -m pytest -q -p no:cacheprovider -x test/test_<area>.py` (tests that already fail without your change do not count; compare against the unchanged tree with `git apply -R change.patch` / `git apply change.patch`; NEVER use git stash - it is shared between worktrees). The machine is heavily loaded, so tests are slow; choose the most relevant 2-4 test files rather than the whole suite (the full suite will be re-run later by someone else; a change that fails it will be discarded).
+- Write the demonstration as `<worktree>/demo_<ID>.py`: a self-contained script that exits 0 and prints PASS when the property holds and exits 1 and prints FAIL (with numbers) when it is violated. It must FAIL with your change and PASS on the unchanged code (verify both with `git diff -- abtem > change.patch; git apply -R change.patch; ...; git apply change.patch`; never use git stash). Set `abtem.config.set({{"diagnostics.progress_bar": False, "fftw.planning_effort": "FFTW_ESTIMATE"}})` at the top to keep it fast and quiet.
 - Leave the change UNCOMMITTED in the worktree and also save it as `<worktree>/change.patch` (`git diff -- abtem > change.patch`).
 - Do not look for existing bugs; the task is to introduce a new one per property.
 
